@@ -90,7 +90,8 @@ theorem exSrc_compile (tol : Ext ℚ) : Compile.linearize exSrc tol 0 = .ok exMa
     simp [Analyzer.applyToDomain, Analyzer.applyToVar, Analyzer.fromDomain, exSrc, AList.insert, AList.get?,
       Bounds.ofVarType]
   refine (compile_ok_iff _ _ _ _).mpr
-    ⟨{ Analyzer.fromDomain exSrc.domain tol with reachedIterationLimit := true }, ?_, ?_⟩
+    ⟨scratchOK_of_fragCheck _ _ (by simp [fragCheck, exSrc, frag, fragList]),
+     { Analyzer.fromDomain exSrc.domain tol with reachedIterationLimit := true }, ?_, ?_⟩
   · simp only [pipelineAnalyzer, ex_normalized, Option.map_some, ex_analyzer]
   · rw [hd]; exact ex_lin _
 
